@@ -13,6 +13,8 @@
 import YtkProofs.Clone
 import YtkModel.Generated.CloneTable
 import YtkProofs.FuncsLemmas
+import YtkModel.Generated.OpOrder
+import YtkProofs.GapPipeline
 
 namespace Ytk.C15
 open Ytk.CloneT Ytk.Clone Ytk.Generated
@@ -139,6 +141,67 @@ theorem nonvacuous_incomplete_detected :
     getField (cloneFields oldForEach exRender "ForEachOp" [("Variable", .strPtr (some "v"))]) "Variable"
       = some (.strPtr none) := by
   refine ⟨by decide, by rfl⟩
+
+/-! ### round 8 (lean/CLAUSES_B.md, clauses C15.4, C15.5, C15.8): ties to C12, C13 and C14 -/
+
+/-- C15.8 — the operation set of the executor (C12's regenerated `opOrder`: the fields of OpSpec in declared
+    order with their operation types) and the clone table (this property's regenerated table) agree:
+    every operation type the executor can run has a `CloneWith` entry, and the `OpSpec` entry of the
+    clone table lists exactly those fields, in that order, each cloned through its own type's `CloneWith`.
+    (Both tables come from different extractors; neither was compared with the other before.) -/
+theorem opOrder_types_cloneable :
+    (∀ e ∈ Generated.opOrder, e.2.2 ∈ cloneTable.map (·.name)) ∧
+    ((cloneTable.find? (·.name == "OpSpec")).map fun t => t.fields.map fun f => (f.name, f.ref)) =
+      some (Generated.opOrder.map fun e => (e.1, e.2.2)) ∧
+    (∀ t ∈ cloneTable, t.name = "OpSpec" → ∀ f ∈ t.fields, f.kind = .recordPtr ∧ f.act = .reflectAll) := by
+  decide
+
+/-- C15.4 — the hypothesis `LenientId` of `clone_eq` is a THEOREM for the real lenient renderer: C13's
+    model of `renderLenientTemplate` / `possiblyTemplate` (any underlying template engine `r`) … -/
+theorem lenientId_renderLenient (r : String → Option String) :
+    LenientId (PD.renderLenient r) PD.possiblyTemplate := by
+  intro s h
+  simp [PD.renderLenient, h]
+
+/-- … and the interpreter's own (C12 / C14), against any data snapshot -/
+theorem lenientId_pipeline (d : AMap Node) :
+    LenientId (fun s => Pipeline.renderLenient s d) Pipeline.possiblyTemplate := by
+  intro s h
+  simp [Pipeline.renderLenient, h]
+
+/-- hence `clone_eq` without any assumption on rendering: a well-typed value none of whose text fields
+    has a `{{ … }}` pair is its own clone, whatever the template engine does -/
+theorem clone_eq_lenient (r : String → Option String) (v : CV) (hw : WellTyped cloneTable v)
+    (ht : TemplateFree PD.possiblyTemplate v) : cloneV cloneTable (PD.renderLenient r) v = v :=
+  clone_eq _ _ v hw ht (lenientId_renderLenient r)
+
+/-- C15.5 in the INTERPRETER model (`Ytk.Pipeline`, the model of C12 / C14, whose forEach clones every
+    body operation per item): an operation none of whose rendered text fields looks like a template —
+    recursively through forEach / loop / define bodies (`Op.tfree`) — is its own clone against ANY data … -/
+theorem cloneOp_eq_of_templateFree (d : AMap Node) (o : Pipeline.Op) (h : o.tfree = true) :
+    Pipeline.cloneOp d o = o := Pipeline.cloneOp_tfree d o h
+
+theorem cloneAct_eq_of_templateFree (d : AMap Node) (a : Pipeline.Action) (h : a.tfree = true) :
+    Pipeline.cloneAct d a = a := Pipeline.cloneAct_tfree d a h
+
+/-- … so executing the clones IS executing the originals: same trace (listener events, log output),
+    same final data, same error — performWithItem's "clone, then Execute" loop equals OpSpec.Do's loop,
+    for every fuel and state (`clone_same_effect` above is the congruence `f x = f x`; this one is about
+    the run). -/
+theorem cloneOps_run_eq (n : Nat) (os : List Pipeline.Op) (h : ∀ o ∈ os, o.tfree = true) (st : Pipeline.St) :
+    Pipeline.run n (.cloneOps os) st = Pipeline.run n (.ops os) st :=
+  Pipeline.run_cloneOps_tfree n os h st
+
+/-- with a template the clone differs — and the difference is exactly the rendering against the data of
+    the moment: a forEach body `log "item={{ .i }}"` is cloned to `log "item=a"` -/
+theorem nonvacuous_cloneOp :
+    let o : Pipeline.Op := .forEach none none (some "i") (.mk "b" 0 none [.log "plain", .set none "p.q" none] [])
+    o.tfree = true ∧
+    (Pipeline.Op.log "item={{ .i }}").tfree = false ∧
+    (match Pipeline.cloneOp [("i", .leaf ⟨"string", "a"⟩)] (.log "item={{ .i }}") with
+      | .log m => m
+      | _ => "") = "item=a" := by
+  decide
 
 end Ytk.C15
 
